@@ -10,3 +10,6 @@ mod test;
 pub use self::decoder::{Decoder, DecoderError, NeedMore};
 pub use self::encoder::Encoder;
 pub use self::header::{BytesStr, Header};
+
+#[cfg(feature = "hyperium_h2_verif")]
+pub(crate) use self::{decoder::verif_decode_int, encoder::verif_encode_int};
